@@ -6,6 +6,7 @@ import (
 	"encoding/json"
 	"errors"
 	"fmt"
+	"io"
 	"log/slog"
 	"math"
 	"os"
@@ -21,6 +22,7 @@ import (
 	"github.com/form3tech-oss/f1/v2/internal/progress"
 	"github.com/form3tech-oss/f1/v2/internal/run"
 	"github.com/form3tech-oss/f1/v2/internal/run/views"
+	"github.com/form3tech-oss/f1/v2/internal/ui"
 	f1testing "github.com/form3tech-oss/f1/v2/pkg/f1/testing"
 	"github.com/form3tech-oss/f1/v2/verifharness/core"
 	"github.com/form3tech-oss/f1/v2/verifharness/engine"
@@ -144,6 +146,14 @@ func init() {
 				c.TimeoutMS = 60000
 				cs = append(cs, c)
 			}
+			// the run's goroutines (progress tick, the run itself, the metrics push) display through one interactive output
+			for i := 0; i < map[string]int{"quick": 2, "thorough": 12}[tier]; i++ {
+				c := core.MkCase("C19", "printer", i, seed, c19Params{N: 8000})
+				c.Race = i%2 == 1
+				c.Procs = 16
+				c.TimeoutMS = 60000
+				cs = append(cs, c)
+			}
 			// progress lines and summaries asked for by an observer while the result is being refreshed
 			for i := 0; i < map[string]int{"quick": 4, "thorough": 24}[tier]; i++ {
 				c := core.MkCase("C19", "observer", i, seed, c19Params{N: 40000})
@@ -154,7 +164,7 @@ func init() {
 			}
 			return cs
 		},
-		Kinds:  map[string]core.RunFunc{"gen": c19Gen, "real": c19Real, "runsummary": c19RunSummary, "observer": c19Observer},
+		Kinds:  map[string]core.RunFunc{"gen": c19Gen, "real": c19Real, "runsummary": c19RunSummary, "observer": c19Observer, "printer": c19Printer},
 		Floors: map[string]int64{"renders": 20000, "coloured_renders": 5000, "percentages_checked": 5000},
 	})
 }
@@ -805,4 +815,66 @@ func c19Observer(c *core.Case, o *core.Outcome) {
 	}
 	o.Sig("observer:race=%v", c.Race)
 	o.Sample = map[string]any{"refreshes": n, "lines_read": lines.Load(), "distinct_refreshes_seen": nd}
+}
+
+// chunkWriter keeps every Write it receives as one chunk.
+type chunkWriter struct {
+	mu     sync.Mutex
+	chunks map[string]int
+}
+
+func (w *chunkWriter) Write(p []byte) (int, error) {
+	w.mu.Lock()
+	w.chunks[string(p)]++
+	w.mu.Unlock()
+	return len(p), nil
+}
+
+// c19Printer: three goroutines display fixed views (a progress line, the max-duration line, an interrupt line) through ONE
+// interactive output, as the progress tick, the run and the metrics push do in a real run. Everything that reaches the
+// terminal is exactly one of those renderings: a progress line states the counts it was given.
+func c19Printer(c *core.Case, o *core.Outcome) {
+	var p c19Params
+	c.Params(&p)
+	n := p.N
+	if c.Race {
+		n /= 8
+	}
+	v := views.New()
+	w := &chunkWriter{chunks: map[string]int{}}
+	out := ui.NewOutput(slog.New(slog.NewTextHandler(io.Discard, nil)), ui.NewPrinter(w, w), true, true)
+	prog := v.Progress(views.ProgressData{SuccessfulIterationCount: 45, FailedIterationCount: 3, DroppedIterationCount: 2, Duration: 61 * time.Second, Period: time.Second,
+		SuccessfulIterationDurationsForPeriod: progress.IterationDurationsSnapshot{Count: 45, Average: 12 * time.Millisecond, Min: time.Millisecond, Max: 90 * time.Millisecond}})
+	tmo := v.Timeout(views.TimeoutData{Duration: 9091 * time.Millisecond})
+	intr := v.Interrupt(views.InterruptData{Duration: 77 * time.Second})
+	want := map[string]bool{prog.Render() + "\n": true, tmo.Render() + "\n": true, intr.Render() + "\n": true}
+	var wg sync.WaitGroup
+	for _, vc := range []ui.Outputable{prog, tmo, intr} {
+		vc := vc
+		wg.Add(1)
+		go func() {
+			defer wg.Done()
+			for i := 0; i < n; i++ {
+				out.Display(vc)
+			}
+		}()
+	}
+	wg.Wait()
+	o.Events = int64(3 * n)
+	w.mu.Lock()
+	defer w.mu.Unlock()
+	total := 0
+	for chunk, k := range w.chunks {
+		total += k
+		if !want[chunk] {
+			o.Violate("printer-mixed", "%d writes reached the terminal of an interactive run that displayed only a progress line (45 / 3 / 2), the max-duration line and the interrupt line, %d times each, from three goroutines; one of them reads %q", total, n, firstN(chunk, 200))
+			return
+		}
+	}
+	if total != 3*n {
+		o.Violate("printer-count", "%d displays made %d writes", 3*n, total)
+		return
+	}
+	o.AddObs("renders", int64(3*n))
+	o.Sig("printer:race=%v", c.Race)
 }
